@@ -138,3 +138,14 @@ def _occ(node: ast.AST, f: FuncInfo) -> int:
     same = [x for x in own_nodes(f.node) if isinstance(x, ast.Attribute) and norm(x) == norm(node)]
     same.sort(key=lambda x: (x.lineno, x.col_offset))
     return same.index(node) if node in same else 0
+
+_core_run = run
+
+
+def run(ctx: Context) -> None:  # noqa: F811
+    _core_run(ctx)
+    from . import backend
+
+    ctx.rep.rule('C08.R9', 'Lock / Event / Semaphore are guard-free delegations to ONE underlying primitive created once (thread flavour: in the constructor; async flavour: in the synchronous setup)')
+    backend.primitives(ctx, 'C08.R9')
+    ctx.rep.explanation = (ctx.rep.explanation or '') + ' R9 (primitives): every lock/event/semaphore operation delegates unconditionally to one underlying primitive that is created exactly once - no check-then-create window in which a set()/release() can miss a waiter.'
